@@ -132,6 +132,12 @@ KINDS = {
     "O": rs("c8/other", [["string", "w"]], ["'o'"]),
     "F": rs("c8/has", [["string", "tag"]], ["'f'"]),
 }
+# selectors that are true for a record *without* going through the missing field (a reader may not pre-filter by field names)
+STREAM_EXPRS = [
+    "r.v > 5 or name(r) == 'c8/other'", "r.v > 5 or has_field(r, 'w')", "r.v > 5 or Type.string == 'o'", "r.v > 5 or True",
+    "r.v == 7 and name(r) == 'c8/has'", "r.w == 'o' or r.v == 3", "field_equals(r, ['w', 'tag'], ['o', 'n'])", "r.v == 3 or r.tag == 'f'",
+    "r.v > 5 or field_contains(r, ['tag'], ['f'])", "r.zz == 1 or r.tag == 'm' or r.w == 'o'",
+]
 _n = [0]
 
 
@@ -144,14 +150,21 @@ def run_stream(case):
 
     h = jhash(case)
     seq, op = case["seq"], case["op"]
-    if op in ("in", "not in"):
+    records = [recs.build_record(KINDS[k]) for k in seq]
+    if op.startswith("expr:"):
+        expr = op[5:]
+        vals = [refsel.evaluate_c08(expr, r) for r in records]
+        keepflags = [v == ("value", True) for v in vals]
+        keep = None
+    elif op in ("in", "not in"):
         expr = "r.v %s [7, 8]" % op
         keep = lambda k: (k == "M") if op == "in" else (k == "N")  # noqa: E731
     else:
         expr = "r.v %s 5" % op
         keep = lambda k: k in ("M", "N") and py_cmp(op, 7 if k == "M" else 3, 5)  # noqa: E731
-    records = [recs.build_record(KINDS[k]) for k in seq]
-    expected = obs_list([r for r, k in zip(records, seq) if keep(k)])
+    if keep is not None:
+        keepflags = [keep(k) for k in seq]
+    expected = obs_list([r for r, f in zip(records, keepflags) if f])
     d = os.environ["VERIF_SCRATCH"]
     _n[0] += 1
     base = os.path.join(d, "c08-%d-%d" % (os.getpid(), _n[0]))
@@ -264,6 +277,9 @@ def cases(tier):
                 continue  # quick: half of the length-4 sequences; thorough: all
             for op in OPS:
                 yield {"kind": "stream", "seq": list(seq), "op": op}
+            if k <= 3:
+                for e in STREAM_EXPRS:
+                    yield {"kind": "stream", "seq": list(seq), "op": "expr:" + e}
 
 
 def main(tier, seed, workers=None):
